@@ -175,6 +175,23 @@ _k("bare-9-literal", "eval", "error", "invalid-number", ".word «19»")
 _k("division-by-zero", "eval", "error", "arithmetic-error", ".word «5 / 0»")
 _k("modulo-by-zero", "eval", "error", "arithmetic-error", ".word 1 + «7 % 0»")
 _k("negative-shift", "eval", "error", "arithmetic-error", ".word «1 << (0 - 1)»")
+# sub-expressions that FOLLOW an infix operator, with blanks / tabs / a comment and a line break between:
+# the token of the group (and every token built on it: 'lhs op rhs' starts where lhs starts) must start at
+# the first character of the group, not at the white space before it
+_k("division-by-zero-group-after-infix", "eval", "error", "arithmetic-error", ".word 7 + \t«(5 - 2) / 0»",
+   note="InfixOperator tokens start where their left operand starts: the parenthesis")
+_k("modulo-by-zero-angle-group-after-comment", "eval", "error", "arithmetic-error", ".word 7 | ; комментарий\n\t «<5 - 2> % 0»",
+   note="the group is on the next line after a comment")
+_k("modulo-by-zero-caret-group-after-infix", "eval", "error", "arithmetic-error", ".word 1 +  «^/5 - 2/ % 0»")
+_k("negative-shift-group-after-infix", "eval", "error", "arithmetic-error", ".word 1 |\t«(1) << (0 - 1)»",
+   note="shifts bind tighter than '|' and looser than '+'")
+_k("negative-right-shift-group-after-infix", "eval", "error", "arithmetic-error", ".word 1 | \t «<4> >> (0 - 1)»")
+_k("call-after-infix", "eval", "error", "unexpected-value", ".word 7 +   «5(2)»",
+   note="'a(b)' tokens start where the callee starts")
+_k("call-of-group-after-infix", "eval", "error", "unexpected-value", ".word 7 - \t«(5)(2)»")
+_k("immediate-in-group-after-infix", "eval", "error", "unexpected-value", ".word 7 * \t(«#5»)")
+_k("division-by-zero-nested-after-infix", "eval", "error", "arithmetic-error", "mov #1 + \t(2 + \t«(3 - 3) / 0»), r0",
+   note="two levels of groups, each after an infix operator and a tab")
 _k("register-as-value", "eval", "error", "unexpected-register", ".word «r1»")
 _k("autoincrement-as-value", "eval", "error", "unexpected-value", ".word (1)«+»",
    note="postfix operator tokens span the operator only (parser.expression: operator(ctx_op, ctx_op_end, ...))")
